@@ -100,7 +100,10 @@ def worker_main(argv: list[str]) -> int:
     shims.assert_no_real_threading()
     mod = load_check(prop)
     if hasattr(mod, "warmup"):
-        mod.warmup()
+        try:
+            mod.warmup()
+        except Exception as e:  # noqa: BLE001  a broken tree may already fail here; the runs below report it properly
+            print(f"warm-up raised {type(e).__name__}: {e}", file=sys.stderr)
     rc = 0
     with open(outfile, "w") as out:
         for item in job["items"]:
